@@ -8,7 +8,10 @@
 // with the executable specification (ordered by file, line, column; no duplicates).  Go's
 // errorSort is also driven directly (Entry.GetErrors on a hand-made entry) with message lists
 // full of ties.  The goyang command built from the current tree is run R times per source set
-// with --format tree and --format types: every output must be byte-identical.
+// with every format and every combination of the boolean flags its sources define (read from
+// the repository root: --format tree | types, --types_verbose, --types_debug, --ignore-circdep,
+// also without --format, with module names through --path, with the sources on standard input,
+// with --trace): every output must be byte-identical.
 //
 // Two different Go outputs for one source set are the failing input.
 package main
@@ -23,6 +26,8 @@ import (
 	"os"
 	"os/exec"
 	"path/filepath"
+	"regexp"
+	"runtime/debug"
 	"sort"
 	"strconv"
 	"strings"
@@ -36,7 +41,7 @@ import (
 	"verif/harness/rescorr"
 )
 
-var repoDir = flag.String("repo", "/repo", "goyang source tree the goyang command is built from")
+var repoDir = flag.String("repo", "", "goyang source tree the goyang command is built from (default: $VERIF_REPO, else the directory this runner's goyang dependency was replaced by at build time, else /repo)")
 var workDir = flag.String("work", "/verif/.work/c05", "scratch directory")
 var nSets = flag.Int("n", 0, "number of source sets (0 = tier default)")
 
@@ -621,15 +626,127 @@ func uniq(ms []string) []string {
 
 // ---------- part C: the goyang command ----------
 
+// resolveRepo fixes the source tree the command is built from: it must be the tree the library
+// part of this runner was compiled against.
+func resolveRepo() {
+	if *repoDir != "" {
+		return
+	}
+	if v := os.Getenv("VERIF_REPO"); v != "" {
+		*repoDir = v
+		return
+	}
+	if bi, ok := debug.ReadBuildInfo(); ok {
+		for _, d := range bi.Deps {
+			if d.Path == "github.com/openconfig/goyang" && d.Replace != nil && filepath.IsAbs(d.Replace.Path) {
+				*repoDir = d.Replace.Path
+				return
+			}
+		}
+	}
+	*repoDir = "/repo"
+}
+
 func buildGoyang() (string, error) {
+	resolveRepo()
 	out := filepath.Join(*workDir, "goyang")
 	cmd := exec.Command("go", "build", "-o", out, ".")
 	cmd.Dir = *repoDir
 	cmd.Env = append(os.Environ(), "GOFLAGS=-mod=mod", "GOPROXY=off", "GOSUMDB=off", "GOTOOLCHAIN=local")
 	if b, err := cmd.CombinedOutput(); err != nil {
-		return "", fmt.Errorf("go build goyang: %v: %s", err, b)
+		return "", fmt.Errorf("go build goyang in %s: %v: %s", *repoDir, err, b)
 	}
 	return out, nil
+}
+
+// cliSurface is what the command's sources say it accepts: the registered formats, the boolean
+// flags each format adds, the global boolean flags.  Read from the flag definitions in the .go
+// files of the repository root, so that a format or flag added later is exercised too.
+type cliSurface struct {
+	Formats    []string            `json:"formats"`
+	FormatBool map[string][]string `json:"format_flags"`
+	GlobalBool []string            `json:"global_flags"`
+	Other      []string            `json:"flags_with_values"` // flags that take a value: not combined blindly
+}
+
+var (
+	reFormatName = regexp.MustCompile(`(?s)register\(&formatter\{.*?name:\s*"([^"]+)"`)
+	reFmtBool    = regexp.MustCompile(`flags\.BoolVarLong\([^,]+,\s*"([^"]+)"`)
+	reFmtOther   = regexp.MustCompile(`flags\.(?:String|List|Int|Uint|Duration|Enum|Counter|Signed|Unsigned)\w*Long\([^,]+,\s*"([^"]+)"`)
+	reGlobBool   = regexp.MustCompile(`getopt\.BoolVarLong\([^,]+,\s*"([^"]+)"`)
+	reGlobOther  = regexp.MustCompile(`getopt\.(?:String|List|Int|Uint|Duration|Enum|Counter|Signed|Unsigned)\w*Long\([^,]+,\s*"([^"]+)"`)
+)
+
+func discoverCli() cliSurface {
+	resolveRepo()
+	cs := cliSurface{FormatBool: map[string][]string{}}
+	files, _ := filepath.Glob(filepath.Join(*repoDir, "*.go"))
+	sort.Strings(files)
+	for _, fn := range files {
+		if strings.HasSuffix(fn, "_test.go") {
+			continue
+		}
+		b, err := os.ReadFile(fn)
+		if err != nil {
+			continue
+		}
+		src := string(b)
+		var here []string
+		for _, m := range reFormatName.FindAllStringSubmatch(src, -1) {
+			here = append(here, m[1])
+			cs.Formats = append(cs.Formats, m[1])
+		}
+		for _, m := range reFmtBool.FindAllStringSubmatch(src, -1) {
+			for _, f := range here {
+				cs.FormatBool[f] = append(cs.FormatBool[f], m[1])
+			}
+		}
+		for _, m := range reFmtOther.FindAllStringSubmatch(src, -1) {
+			cs.Other = append(cs.Other, m[1])
+		}
+		for _, m := range reGlobBool.FindAllStringSubmatch(src, -1) {
+			if m[1] != "help" {
+				cs.GlobalBool = append(cs.GlobalBool, m[1])
+			}
+		}
+		for _, m := range reGlobOther.FindAllStringSubmatch(src, -1) {
+			cs.Other = append(cs.Other, m[1])
+		}
+	}
+	if len(cs.Formats) == 0 {
+		// the sources were not understood: what the command had when this runner was written
+		cs.Formats = []string{"tree", "types"}
+		cs.FormatBool["types"] = []string{"types_debug", "types_verbose"}
+		cs.GlobalBool = []string{"ignore-circdep"}
+	}
+	sort.Strings(cs.Formats)
+	return cs
+}
+
+// combos lists the argument vectors (without sources) the command is run with: no --format at
+// all, and per format every subset of its boolean flags (at most 16 subsets per format).
+func (cs cliSurface) combos() [][]string {
+	out := [][]string{{"--format", "tree"}, {}}
+	for _, f := range cs.Formats {
+		fl := cs.FormatBool[f]
+		nsub := 1 << len(fl)
+		if nsub > 16 {
+			nsub = 16
+		}
+		for mask := 0; mask < nsub; mask++ {
+			if f == "tree" && mask == 0 {
+				continue // first entry
+			}
+			a := []string{"--format", f}
+			for i, x := range fl {
+				if mask&(1<<i) != 0 {
+					a = append(a, "--"+x)
+				}
+			}
+			out = append(out, a)
+		}
+	}
+	return out
 }
 
 type cliOut struct {
@@ -641,9 +758,14 @@ type cliOut struct {
 
 func (c cliOut) key() string { return fmt.Sprintf("%d\x00%s\x00%s", c.Exit, c.Stdout, c.Stderr) }
 
-func runCli(bin, dir string, args []string) cliOut {
+func runCli(bin, dir string, args []string) cliOut { return runCliIn(bin, dir, args, "") }
+
+func runCliIn(bin, dir string, args []string, stdin string) cliOut {
 	cmd := exec.Command(bin, args...)
 	cmd.Dir = dir
+	if stdin != "" {
+		cmd.Stdin = strings.NewReader(stdin)
+	}
 	var so, se bytes.Buffer
 	cmd.Stdout, cmd.Stderr = &so, &se
 	done := make(chan error, 1)
@@ -661,43 +783,135 @@ func runCli(bin, dir string, args []string) cliOut {
 	return cliOut{Args: args, Stdout: so.String(), Stderr: se.String(), Exit: cmd.ProcessState.ExitCode()}
 }
 
-// cliCase runs the command R times per format on the files of c (argument order permuted when
-// every file loads) and returns the first pair of differing outputs, if any.
-func cliCase(bin string, idx int, c rescorr.Case, permute bool, R int, r *rand.Rand) (a, b *cliOut, runs int, tree *cliOut) {
+// cliCase runs the command R times for every combination of format and flags on the files of c
+// (argument order permuted when every file loads; every global boolean flag such as
+// --ignore-circdep off and on when `both` is set, else as the case says), once more per
+// combination group with module names found through --path instead of file names, and with the
+// sources on standard input, and returns the first pair of differing outputs, if any.  --trace
+// is given on a part of the runs (its file is the runtime's execution trace and is not compared;
+// standard output must not change).
+func cliCase(bin string, cs cliSurface, idx int, c rescorr.Case, permute, both bool, R int, r *rand.Rand) (a, b *cliOut, runs int, tree *cliOut) {
 	dir := filepath.Join(*workDir, "cases", strconv.Itoa(idx))
 	os.RemoveAll(dir)
 	os.MkdirAll(dir, 0o755)
 	defer os.RemoveAll(dir)
+	var modArgs []string
+	seen := map[string]bool{}
 	for i, n := range c.Names {
 		os.WriteFile(filepath.Join(dir, n), []byte(c.Texts[i]), 0o644)
+		m := strings.TrimSuffix(n, ".yang")
+		if k := strings.IndexByte(m, '@'); k > 0 {
+			m = m[:k]
+		}
+		if !seen[m] {
+			seen[m] = true
+			modArgs = append(modArgs, m)
+		}
 	}
-	formats := [][]string{{"--format", "tree"}, {"--format", "types"}, {"--format", "types", "--types_debug"}}
-	for _, fm := range formats {
-		var first *cliOut
-		for k := 0; k < R; k++ {
-			files := append([]string{}, c.Names...)
-			if permute && k > 0 && k%2 == 0 {
-				r.Shuffle(len(files), func(i, j int) { files[i], files[j] = files[j], files[i] })
-			}
-			args := append(append([]string{}, fm...), files...)
-			if c.IgnoreCircular {
-				args = append([]string{"--ignore-circdep"}, args...)
-			}
-			o := runCli(bin, dir, args)
-			runs++
-			if first == nil {
-				first = &o
-				if tree == nil {
-					tree = first
+	stdin := strings.Join(c.Texts, "\n")
+	type variant struct {
+		pre   []string // global flags
+		mode  int      // 0 file names, 1 module names via --path, 2 standard input
+		trace bool
+	}
+	var globals [][]string
+	if both {
+		n := 1 << len(cs.GlobalBool)
+		for mask := 0; mask < n && mask < 8; mask++ {
+			var g []string
+			for i, x := range cs.GlobalBool {
+				if mask&(1<<i) != 0 {
+					g = append(g, "--"+x)
 				}
-				continue
 			}
-			if o.key() != first.key() {
-				return first, &o, runs, tree
+			globals = append(globals, g)
+		}
+	} else if c.IgnoreCircular {
+		globals = [][]string{{"--ignore-circdep"}}
+	} else {
+		globals = [][]string{nil}
+	}
+	// the case's own setting first: its output is what the library run is compared with
+	own := ""
+	if c.IgnoreCircular {
+		own = "--ignore-circdep"
+	}
+	for i, g := range globals {
+		if strings.Join(g, " ") == own {
+			globals[0], globals[i] = globals[i], globals[0]
+			break
+		}
+	}
+	for ci, fm := range cs.combos() {
+		var variants []variant
+		for _, g := range globals {
+			variants = append(variants, variant{pre: g})
+		}
+		// the other ways of naming the sources: once per format (flag-free combination)
+		if len(fm) <= 2 {
+			variants = append(variants, variant{pre: globals[0], mode: 1}, variant{pre: globals[0], mode: 2})
+		}
+		for _, v := range variants {
+			var first *cliOut
+			for k := 0; k < R; k++ {
+				var srcs []string
+				switch v.mode {
+				case 0:
+					srcs = append(srcs, c.Names...)
+				case 1:
+					srcs = append(srcs, modArgs...)
+				}
+				if permute && k > 0 && k%2 == 0 {
+					r.Shuffle(len(srcs), func(i, j int) { srcs[i], srcs[j] = srcs[j], srcs[i] })
+				}
+				args := append([]string{}, v.pre...)
+				if v.mode == 1 {
+					args = append(args, "--path", ".")
+				}
+				if k%4 == 3 {
+					args = append(args, "--trace", filepath.Join(dir, "trace.out"))
+				}
+				args = append(append(args, fm...), srcs...)
+				in := ""
+				if v.mode == 2 {
+					in = stdin
+				}
+				o := runCliIn(bin, dir, args, in)
+				runs++
+				if first == nil {
+					first = &o
+					if tree == nil && ci == 0 && v.mode == 0 {
+						tree = first
+					}
+					continue
+				}
+				if o.key() != first.key() {
+					return first, &o, runs, tree
+				}
 			}
 		}
 	}
 	return nil, nil, runs, tree
+}
+
+// flagsOf keeps the options of an argument vector.
+func flagsOf(args []string) string {
+	var fl []string
+	for i := 0; i < len(args); i++ {
+		if strings.HasPrefix(args[i], "--") {
+			fl = append(fl, args[i])
+			if args[i] == "--format" || args[i] == "--path" || args[i] == "--trace" {
+				i++
+				if args[i-1] == "--format" {
+					fl = append(fl, args[i])
+				}
+			}
+		}
+	}
+	if len(fl) == 0 {
+		return "no options"
+	}
+	return strings.Join(fl, " ")
 }
 
 // ---------- main ----------
@@ -778,7 +992,7 @@ func main() {
 
 	// B: source sets through the library
 	n, R, sample := 4000, 8, 24
-	nCli, Rcli := 600, 8
+	nCli, Rcli := 400, 8
 	if f.Thorough() {
 		n, R, sample = 20000, 64, 200
 		nCli, Rcli = 2500, 64
@@ -954,6 +1168,27 @@ func main() {
 	if err != nil {
 		lib.Fatal("%v", err)
 	}
+	surfaceCli := discoverCli()
+	res.Distribution["cli_built_from"] = *repoDir
+	res.Distribution["cli_surface"] = surfaceCli
+	res.Distribution["cli_argument_combinations"] = len(surfaceCli.combos())
+	if len(surfaceCli.Other) > 0 {
+		res.Notes = append(res.Notes, fmt.Sprintf("flags that take a value are not combined blindly: %v (--path and --trace are exercised on purpose, --format through the registered formats)", surfaceCli.Other))
+	}
+	{
+		// --help lists formats and flags: walks of the formatter table
+		var first *cliOut
+		for k := 0; k < Rcli; k++ {
+			o := runCli(bin, *workDir, []string{"--help"})
+			if first == nil {
+				first = &o
+			} else if o.key() != first.key() {
+				res.AddDisagreement(lib.Disagreement{Kind: "spec", Input: "--help", Go: map[string]any{"run_1": first, "run_2": o}, SpecVerdict: "violates",
+					What: "goyang --help prints different text in two runs"})
+				break
+			}
+		}
+	}
 	var cliRuns, cliSets int64
 	var mu sync.Mutex
 	var wg sync.WaitGroup
@@ -969,7 +1204,13 @@ func main() {
 			defer wg.Done()
 			defer func() { <-sem }()
 			c := jobs[i].Case
-			a, b, runs, tree := cliCase(bin, i, c, outs[i].First.ParseErr == "", Rcli, f.Rand(3_000_000+i))
+			both := false
+			for _, t := range c.Texts {
+				if strings.HasPrefix(t, "submodule") {
+					both = true
+				}
+			}
+			a, b, runs, tree := cliCase(bin, surfaceCli, i, c, outs[i].First.ParseErr == "", both, Rcli, f.Rand(3_000_000+i))
 			mu.Lock()
 			cliRuns += int64(runs)
 			cliSets++
@@ -977,7 +1218,7 @@ func main() {
 			mu.Unlock()
 			if a != nil {
 				res.AddDisagreement(lib.Disagreement{Kind: "spec", Input: c, Go: map[string]any{"run_1": a, "run_2": b}, SpecVerdict: "violates",
-					What:   fmt.Sprintf("the goyang command prints different output for one source set (%s)", strings.Join(a.Args[:2], " ")),
+					What:   fmt.Sprintf("the goyang command prints different output for one source set (%s)", flagsOf(a.Args)),
 					Replay: replay{Mode: "cli", Case: c, OutputA: a, OutputB: b}})
 			}
 		}(i)
@@ -1089,7 +1330,7 @@ func doReplay(f *lib.Flags) {
 		if err != nil {
 			lib.Fatal("%v", err)
 		}
-		a, b, runs, _ := cliCase(bin, 0, rp.Case, true, 64, rand.New(rand.NewSource(1)))
+		a, b, runs, _ := cliCase(bin, discoverCli(), 0, rp.Case, true, true, 64, rand.New(rand.NewSource(1)))
 		fmt.Printf("%d runs of the goyang command\n", runs)
 		if a != nil {
 			fmt.Printf("DIFFERENT:\n--- %v (exit %d)\n%s%s--- %v (exit %d)\n%s%s", a.Args, a.Exit, a.Stdout, a.Stderr, b.Args, b.Exit, b.Stdout, b.Stderr)
